@@ -11,6 +11,7 @@ assignment* (every constraint satisfied by construction, auxiliary variables add
   C03  a completed minimisation/maximisation returns a valid solution at least as good as the planted one;
   C06  with every variable fixed to the planted value the engine must deliver exactly that point; with one variable moved so
        that some constraint is violated it must deliver nothing;
+  C17  the conservation laws of the statistics hold on every run, the exhaustive-enumeration identities on completed ones;
   C08  the in-engine probe re-executes every enabled constraint after every compiled pass (shrink / non-empty / fixpoint).
 
 Runs are bounded logically: after `pass_limit` passes the probe makes every pass fail and the search unwinds; such a run
@@ -321,6 +322,15 @@ def check_op(model, cfg, op, planted, limit, objective=None, sense=None, max_sol
     if len(set(sols)) != len(sols):
         fail("C02", "duplicate_solution", "a solution was delivered twice among the first %d" % len(sols))
     complete = not cut and len(sols) < max_sols
+    if op != "optimise":
+        from framework.props.models import stats_laws
+
+        st = [int(x) for x in s.statistics[:13]]
+        law = stats_laws(st, cfg, complete, len(sols))
+        cnt("big.statistics_vectors_checked")
+        if law:
+            fail("C17", "conservation_law", "%s on a large model (%s, %s): %s; statistics %r" % (
+                op, "complete" if complete else "stopped early", cfg, law, st))
     if op in ("full", "partial") and complete:
         cnt("big.enumerations_completed")
         if tuple(planted) not in set(sols):
